@@ -103,6 +103,8 @@ func (v verificationMethodValidator) verifyThumbprint(method *did.VerificationMe
 	if keyAsJWK == nil {
 		return errors.New("unable to get JWK: verificationMethod has no key")
 	}
+	// AssignKeyID keeps a "kid" that is already present in the JWK, which must not be taken for the thumbprint
+	_ = keyAsJWK.Remove(jwk.KeyIDKey)
 	_ = jwk.AssignKeyID(keyAsJWK)
 	if keyAsJWK.KeyID() != method.ID.Fragment {
 		return errors.New("key thumbprint does not match ID")
